@@ -312,7 +312,7 @@ func TestC15(t *testing.T) {
 						default:
 							d := math.Abs(r64 - n64)
 							if tol > 0 {
-								if ratio := d / (2 * tol); ratio > maxRatio && comfortable {
+								if ratio := d / (2 * tol); ratio > maxRatio && ratio <= 1 && comfortable {
 									maxRatio = ratio
 								}
 							}
